@@ -728,6 +728,8 @@ struct VariantSys {
 using TA  = mc::Tracked<mc::copy_move, 0>;
 using TB  = mc::Tracked<mc::copy_move, 1>;
 using TMO = mc::Tracked<mc::move_only, 0>;
+using TR  = mc::Tracked<mc::rule3, 0>; // trivial copy assignment, user-provided copy constructor + destructor
+using TRB = mc::Tracked<mc::rule3, 1>;
 
 } // namespace
 
@@ -748,6 +750,8 @@ int main(int argc, char** argv)
     m.job("variant<int,Tracked>/k3", both, [](mc::Reporter& r) { explore<VariantSys<3, false, short, int, TA>>(r); });
     m.job("variant<TrackedMoveOnly,int>/k3", both, [](mc::Reporter& r) { explore<VariantSys<3, false, NoExtra, TMO, int>>(r); });
     m.job("variant<Tracked,Tracked>/k3", both, [](mc::Reporter& r) { explore<VariantSys<3, false, NoExtra, TA, TA>>(r); }); // round 2
+    m.job("variant<TrackedRule3,TrackedRule3B>/k3", both, [](mc::Reporter& r) { explore<VariantSys<3, false, NoExtra, TR, TRB>>(r); });
+    m.job("variant<int,TrackedRule3>/k3", both, [](mc::Reporter& r) { explore<VariantSys<3, false, NoExtra, int, TR>>(r); });
 #endif
 #if !defined(MC_PART) || MC_PART == 3
     m.job("variant<monostate,Tracked,TrackedB,short>/k3", both, [](mc::Reporter& r) { explore<VariantSys<3, false, NoExtra, etl::monostate, TA, TB, short>>(r); });
